@@ -220,7 +220,9 @@ func cmdLayoutSweep(args []string) error {
 				// the shapes of a block comment: runs of stars of either parity before the closing slash, stars and slashes inside
 				" /** c **/ ", " /***/ ", " /****/ ", " /* a * b ** c *** d */ ", " /* / * / */ ", " /*//*/ ", "\n//\n", "\n// c /* not a block\n", " /* \n * x\n **/ ",
 				// a lone carriage return is a line end too: it ends a // comment
-				"\r", " // c\r", "\r// c\r\r"}
+				"\r", " // c\r", "\r// c\r\r",
+				// block comments spanning lines that end in CR LF or in a lone CR, also directly behind a star
+				" /* a\r\n b */ ", " /*\r\n * x *\r\n ***/ ", " /* a\r b *\r*/ "}
 			eols := []string{" ", "\n\n", " // end\n", "\t\n /* x */\n", " // end\r", "\r"}
 			for i, sp := range seps {
 				if err := emit(fmt.Sprintf("sep%d", i), "", sp, "\n", false); err != nil {
